@@ -36,24 +36,63 @@ pub fn read_replay_lines(path: &str, tag: &str) -> (Vec<Value>, usize) {
     (out, bad)
 }
 
+/// Crash isolation: before a case is run against the code under test it is written to the file
+/// named by VH_INFLIGHT; if the process dies (abort, signal) the driver reports that case.
+pub fn inflight(v: &Value) {
+    if let Ok(p) = std::env::var("VH_INFLIGHT") {
+        let _ = std::fs::write(p, v.to_string());
+    }
+}
+
 /// Exit code 2: the tool, not the code under test, failed.
 pub fn tool_error(msg: &str) -> ! {
     eprintln!("TOOL-ERROR: {msg}");
     std::process::exit(2);
 }
 
-/// Map a model key (small natural) to the bytes used against the implementation.
-/// 0 is the empty key (only ever used as a seek target / bound), i >= 1 is a one-letter key.
+/// Key shapes: the model's keys are small naturals; the implementation sees byte strings in the
+/// same order.  VH_KEYSET selects the shape (plain letters, shared prefixes, binary extremes).
+fn keyset() -> &'static [&'static [u8]] {
+    static PLAIN: &[&[u8]] = &[b"a", b"b", b"c", b"d", b"e", b"f", b"g", b"h"];
+    static PREFIX: &[&[u8]] = &[b"a", b"aa", b"aaa", b"ab", b"b", b"ba", b"bb", b"c"];
+    static BIN: &[&[u8]] = &[b"\x00", b"\x00\x00", b"\x00\xff", b"\x7f", b"\xfe\xff\xff", b"\xff", b"\xff\x00", b"\xff\xff"];
+    match std::env::var("VH_KEYSET").as_deref() {
+        Ok("prefix") => PREFIX,
+        Ok("bin") => BIN,
+        _ => PLAIN,
+    }
+}
+
+/// 0 is the empty key (only ever a seek target / bound), i >= 1 the i-th key of the key set,
+/// anything beyond the key set a key greater than all of them.
 pub fn key_bytes(k: i64) -> Vec<u8> {
-    if k <= 0 { vec![] } else { vec![b'a' + (k as u8) - 1] }
+    let ks = keyset();
+    if k <= 0 {
+        vec![]
+    } else if (k as usize) <= ks.len() {
+        ks[k as usize - 1].to_vec()
+    } else {
+        vec![0xff; 12]
+    }
 }
 
 pub fn key_of_bytes(b: &[u8]) -> i64 {
-    if b.is_empty() { 0 } else { (b[0] - b'a') as i64 + 1 }
+    if b.is_empty() {
+        return 0;
+    }
+    for (i, k) in keyset().iter().enumerate() {
+        if *k == b {
+            return i as i64 + 1;
+        }
+    }
+    -7
 }
 
 pub fn value_bytes(k: i64, ts: i64) -> Vec<u8> {
-    format!("v{k}.{ts}").into_bytes()
+    let mut v = format!("v{k}.{ts}").into_bytes();
+    let pad: usize = std::env::var("VH_PAD").ok().and_then(|s| s.parse().ok()).unwrap_or(0);
+    v.resize(v.len() + pad, b'.');
+    v
 }
 
 #[derive(Default)]
